@@ -16,6 +16,11 @@ EXTRA = {
     "C14": "Note: tests/test_clf_pn532.py cannot be run on its own in this sandbox (it patches sys.platform); run the other tests/test_clf_*.py files and compare failing sets with the unchanged code.",
 }
 HINTS = {
+    8: ("For this round pick a code site and a kind of mistake that are DIFFERENT from the ones above - it is round 8, the obvious "
+        "sites are used up: read the anchored files completely and look for a statement whose removal/alteration no earlier idea "
+        "touched; think of rare but legal protocol situations (simultaneous actions of both peers, an answer arriving while the "
+        "request is still queued, a retransmission that crosses a state change, the second of two connections, reuse after an "
+        "error, values at both ends of a range at once).  The change must be something a maintainer could plausibly commit."),
     7: ("For this round pick a code site and a kind of mistake that are DIFFERENT from the ones above.  Ideas nobody tried yet: "
         "a change that is correct for the common configuration but wrong for a documented optional argument (timeouts, flags, "
         "keyword options); two call sites of one helper where only one was updated; a `return` inside a loop that should "
